@@ -2,6 +2,7 @@ package props
 
 import (
 	"fmt"
+	"github.com/nspcc-dev/neo-go/pkg/core/native/nativenames"
 	"math/big"
 	"os"
 	"os/exec"
@@ -569,10 +570,10 @@ var c16Bands = []int64{15_004, 15_999, 16_000, 16_999, 17_000, 17_999, 18_000, 1
 func TestC16Data(t *testing.T) {
 	theT = t
 	col := ev.New("C16", "data",
-		"rapid: a live contract of the working tree (Balance, Container, Netmap, NNS, NeoFSID, Audit, Reputation) is driven through a generated history; its storage is copied into a stub and inverse-migrated to the layout of a drawn supported version (un-prefixed balance accounts and container keys, pre-0.16 netmap snapshot/candidate structures, pre-0.19 subscriber keys, pre-0.18 owned TLDs, pre-0.17 notary flag with absent/empty/stale/fresh ballots and stale script-hash keys); the stub updates itself to the working tree's contract; oracle: a fresh pending vote (flag true) blocks the update and nothing changes, otherwise the raw storage equals the live contract's exactly (no leftovers of the old layout) and every read method answers identically, also after a further epoch tick / put executed on both; non-trivial = every case that reaches the comparison with a legacy band below 0.20",
+		"rapid: a live contract of the working tree (Balance, Container, Netmap, NNS, NeoFSID, Audit, Reputation, Alphabet) is driven through a generated history; its storage is copied into a stub and inverse-migrated to the layout of a drawn supported version (un-prefixed balance accounts and container keys, pre-0.16 netmap snapshot/candidate structures, pre-0.19 subscriber keys, pre-0.18 owned TLDs, pre-0.17 notary flag with absent/empty/stale/fresh ballots and stale script-hash keys); the stub updates itself to the working tree's contract; oracle: a fresh pending vote (flag true) blocks the update and nothing changes, otherwise the raw storage equals the live contract's exactly (no leftovers of the old layout) and every read method answers identically, also after a further epoch tick / put executed on both; for the Alphabet contract (whose pre-0.17 non-Notary update moves funds by its documented rule) the exact GAS deltas of Proxy, every Inner Ring and storage node, their Notary deposits and the contract itself, and refusal when there is nothing to distribute; non-trivial = every case that reaches the comparison with a legacy band below 0.20",
 		"legacy storages are well formed for their version band (built by inverse migration of a storage produced by the current contract)", "pre-0.16 network maps hold only Online nodes (the old format had no state)")
 	runRapid(t, col, func(rt *rapid.T, h *ev.History) {
-		name := rapid.SampledFrom([]string{"balance", "balance", "container", "container", "netmap", "netmap", "nns", "nns", "neofsid", "audit", "reputation"}).Draw(rt, "contract")
+		name := rapid.SampledFrom([]string{"balance", "balance", "container", "container", "netmap", "netmap", "nns", "nns", "neofsid", "audit", "reputation", "alphabet", "alphabet"}).Draw(rt, "contract")
 		v := rapid.SampledFrom(c16Bands).Draw(rt, "version")
 		switch name {
 		case "balance":
@@ -583,6 +584,8 @@ func TestC16Data(t *testing.T) {
 			c16Netmap(rt, h, v)
 		case "nns":
 			c16NNS(rt, h, v)
+		case "alphabet":
+			c16Alphabet(rt, h, v)
 		default:
 			c16Simple(rt, h, name, v)
 		}
@@ -942,6 +945,154 @@ func c16NNS(rt *rapid.T, h *ev.History, v int64) {
 		cs.sameAPI(stub, "getRecords", n, recSOA)
 	}
 	h.Mark("nns-band-" + band(v))
+}
+
+// c16Alphabet: an Alphabet contract of a supported version below 0.17 may still carry the non-Notary flag.
+// Its update is the one migration that moves funds; the contract documents the rule (switchToNotary):
+// 75% of the contract's GAS is distributed - half of that to Proxy, the rest evenly between the Inner
+// Ring and the storage nodes of the current network map, each node getting half of its share on its
+// account and half (at most 20 GAS) as a Notary deposit; a pending vote blocks the update; without the
+// flag (or with flag false) no funds move. Checked: exact amounts, GAS conservation, storage, read API.
+func c16Alphabet(rt *rapid.T, h *ev.History, v int64) {
+	c := chainkit.NewChain(theT, 1, chainkit.Options{P2PSig: true})
+	defer c.Close()
+	fs := chainkit.NewFS(c, chainkit.FSOptions{Contracts: []string{"netmap", "proxy", "alphabet"}})
+	alpha := []neotest.Signer{c.Alphabet}
+	live := fs.H["alphabet0"]
+	r := rapid.IntRange(1, 4).Draw(rt, "innerRing")
+	k := rapid.IntRange(0, 3).Draw(rt, "storageNodes")
+	var irPubs keys.PublicKeys
+	var nodes []util.Uint160
+	names := map[util.Uint160]string{fs.H["proxy"]: "Proxy"}
+	for i := 0; i < r; i++ {
+		key := chainkit.DetKey(fmt.Sprintf("c16-alpha-ir-%d", i))
+		irPubs = append(irPubs, key.PublicKey())
+		nodes = append(nodes, key.PublicKey().GetScriptHash())
+		names[key.PublicKey().GetScriptHash()] = fmt.Sprintf("Inner Ring node %d", i)
+	}
+	c.DesignateAlphabet(irPubs)
+	for i := 0; i < k; i++ {
+		key := chainkit.DetKey(fmt.Sprintf("c16-alpha-sn-%d", i))
+		if o := c.Invoke(alpha, fs.H["netmap"], "addPeerIR", legacyInfo(key.PublicKey().Bytes(), i+1)); !o.Halt {
+			panic(chainkit.HarnessError{Msg: "c16 alphabet: addPeerIR: " + o.Fault})
+		}
+		nodes = append(nodes, key.PublicKey().GetScriptHash())
+		names[key.PublicKey().GetScriptHash()] = fmt.Sprintf("storage node %d", i)
+	}
+	if o := c.Invoke(alpha, fs.H["netmap"], "newEpoch", 1); !o.Halt {
+		panic(chainkit.HarnessError{Msg: "c16 alphabet: tick: " + o.Fault})
+	}
+	cs := &c16Case{name: "alphabet", c: c, live: live, v: v, legacy: map[string][]byte{}, leftovers: map[string][]byte{}}
+	for key, val := range c.Storage(live) {
+		cs.legacy[key] = val
+	}
+	flag := "absent"
+	if v < 17_000 {
+		flag = rapid.SampledFrom([]string{"absent", "false", "true", "true", "true"}).Draw(rt, "notaryFlag")
+	}
+	ballots := "absent"
+	if flag != "absent" {
+		cs.legacy["notary"] = []byte{0}
+		if flag == "true" {
+			cs.legacy["notary"] = []byte{1}
+		}
+		ballots = rapid.SampledFrom([]string{"absent", "empty", "stale", "fresh"}).Draw(rt, "ballots")
+		cur := int64(c.Height())
+		switch ballots {
+		case "empty":
+			cs.legacy["ballots"] = ser(stackitem.NewArray(nil))
+		case "stale":
+			cs.legacy["ballots"] = ser(stackitem.NewArray([]stackitem.Item{ballotItem(cur - 100)}))
+		case "fresh":
+			cs.legacy["ballots"] = ser(stackitem.NewArray([]stackitem.Item{ballotItem(cur + 4), ballotItem(cur - 100)}))
+		}
+	}
+	// an older deployment may have been pointed at another Proxy: the update stores the one it is given
+	if flag == "true" && rapid.Bool().Draw(rt, "staleProxyKey") {
+		cs.legacy["proxyScriptHash"] = util.Uint160{9, 9}.BytesBE()
+	}
+	stub := installStub(c, "alphabet", cs.legacy)
+	g0 := rapid.SampledFrom([]int64{0, 100 * gasUnit, 77777777777, 5000 * gasUnit, 100000 * gasUnit}).Draw(rt, "contractGAS")
+	gas := c.NativeHash(nativenames.Gas)
+	if g0 > 0 {
+		if o := c.Invoke([]neotest.Signer{c.Validators}, gas, "transfer", c.Validators.ScriptHash(), stub, g0, nil); !o.Halt {
+			panic(chainkit.HarnessError{Msg: "c16 alphabet: funding: " + o.Fault})
+		}
+	}
+	names[stub] = "the Alphabet contract"
+	notaryH := c.NativeHash(nativenames.Notary)
+	names[notaryH] = "the Notary contract"
+	watch := append([]util.Uint160{stub, fs.H["proxy"], notaryH}, nodes...)
+	pre := gasLedger(c, watch)
+	preSnap := c.Snapshot()
+	passProxy := rapid.Bool().Draw(rt, "proxyAddressGiven")
+	var proxyArg any = []byte{}
+	if passProxy {
+		proxyArg = fs.H["proxy"]
+	}
+	cs.data = []any{false, []byte{}, proxyArg, "az", int64(0), int64(1)}
+	o := upgradeStub(c, stub, "alphabet", cs.data, v)
+	h.Op("alphabet: upgrade from %d, non-Notary flag %s, ballots %s, %d GAS units, %d Inner Ring + %d storage nodes, proxy address given=%v -> %s", v, flag, ballots, g0, r, k, passProxy, o)
+	want := map[util.Uint160]int64{}
+	refused := false
+	if flag == "true" {
+		G := g0 * 3 / 4
+		switch {
+		case ballots == "fresh":
+			refused = true
+			h.Mark("blocked-by-pending-vote")
+		case G == 0:
+			refused = true
+			h.Mark("alphabet-nothing-to-distribute")
+		default:
+			toProxy := G / 2
+			per := (G - toProxy) / int64(r+k)
+			dep := per / 2
+			if dep > 20*gasUnit {
+				dep = 20 * gasUnit
+			}
+			want[fs.H["proxy"]] = toProxy
+			for _, n := range nodes {
+				want[n] = per - dep
+			}
+			want[notaryH] = dep * int64(r+k)
+			want[stub] = -toProxy - per*int64(r+k)
+			h.Mark("alphabet-funds-distributed")
+		}
+	}
+	if refused {
+		if o.Halt {
+			fail("C16: the Alphabet contract was updated from %d in non-Notary mode although %s", v, map[bool]string{true: "a pending vote exists", false: "it has no GAS to distribute"}[ballots == "fresh"])
+		}
+		if d := chainkit.Diff(preSnap, c.Snapshot()); len(d) != 0 {
+			fail("C16: refused update changed state: %v", d)
+		}
+		return
+	}
+	if !o.Halt {
+		fail("C16: update of the Alphabet contract from supported version %d failed: %s", v, o.Fault)
+	}
+	expectDeltas("C16", c, pre, want, names, "update of a non-Notary Alphabet contract")
+	if flag == "true" {
+		dep := want[notaryH] / int64(r+k)
+		for _, n := range nodes {
+			if b, ok := c.Call(nil, notaryH, "balanceOf", n).Int(); !ok || b != dep {
+				fail("C16: Notary deposit of %s is %d after the update, expected %d", names[n], b, dep)
+			}
+		}
+	}
+	// storage: that of the live contract (same name, index, netmap, proxy), plus what the rule leaves behind
+	if ballots != "absent" && !(flag == "true") {
+		cs.leftovers["ballots"] = cs.legacy["ballots"]
+	}
+	cs.compareRaw(stub, "right after the update")
+	for _, m := range []string{"name", "version"} {
+		cs.sameAPI(stub, m)
+	}
+	if g, ok := c.Call(nil, stub, "gas").Int(); !ok || g != c.GAS(stub) {
+		fail("C16: gas() of the updated Alphabet contract = %d, its balance is %d", g, c.GAS(stub))
+	}
+	h.Mark("alphabet-band-" + band(v))
 }
 
 func c16Simple(rt *rapid.T, h *ev.History, name string, v int64) {
